@@ -79,6 +79,7 @@ pub trait World: 'static {
     fn slow_exponent(is_f64: bool, a: &[u8], b: &[u8], e: i32) -> i32;
 
     fn set_poison(seed: Option<u64>);
+    fn set_poison_mode(mode: u8);
     fn poison_words() -> u64;
     fn set_sched_hook(hook: Option<fn(u32)>);
 
@@ -251,6 +252,9 @@ macro_rules! world {
             fn set_poison(seed: Option<u64>) {
                 $krate::verif::set_poison(seed)
             }
+            fn set_poison_mode(mode: u8) {
+                $krate::verif::set_poison_mode(mode)
+            }
             fn poison_words() -> u64 {
                 $krate::verif::words_drawn()
             }
@@ -391,6 +395,15 @@ macro_rules! with_world {
             other => panic!("no such world {}", other),
         }
     };
+}
+
+/// Garbage shape of every linked configuration (0 mixed, 1 all-ones, 2 all-zero).
+pub fn set_poison_mode_all(mode: u8) {
+    WDefault::set_poison_mode(mode);
+    WCompact::set_poison_mode(mode);
+    WAlloc::set_poison_mode(mode);
+    WCompactAlloc::set_poison_mode(mode);
+    WNostdCompact::set_poison_mode(mode);
 }
 
 /// Switch the poison stream of every linked configuration.
